@@ -159,11 +159,20 @@ def body(chk):
                 if not ok or p1 != p0 or e1 != e0:
                     bad.append(pc_term(p['pc']))
                     why = why_ or 'registry changed'
+                elif exceptions:
+                    # the library remains usable and behaves as before the caught failure: the same call fails the same way again,
+                    # and a registered handle can still be selected (state the registry snapshot does not show would surface here)
+                    why2 = after_failure_probes(w, ex, p, scalar, exceptions, fsel, handles, objs, lambda ex: [S.new_string(ex, H)])
+                    if why2:
+                        bad.append(pc_term(p['pc']))
+                        why = why2
             if n_unknown == 0:
                 bad.append(tm.TRUE)
             chk.paths_clean('select-unknown[%s]<%s>' % (bname, scalar), bad, key='select-unknown', family='unknown-handle',
                             replay=fatal_replay(chk, scalar, exceptions, ['masa_init<Scalar>("a","euler_2d");', 'masa_select_mms<Scalar>("nope");'], 'select of unknown handle: ' + why,
-                                                after=['std::string s; masa_get_name<Scalar>(&s); printf("\\nR after %s\\n", s.c_str());'], expect_after='R after euler_2d'))
+                                                after=['std::string s; masa_get_name<Scalar>(&s); printf("\\nR after %s\\n", s.c_str());',
+                                                       'int again=0; for(int k=0;k<3;k++){ try { masa_select_mms<Scalar>("nope"); } catch(int e) { again += (e==1); } } printf("R fails_again %d\\n", again);',
+                                                       'masa_get_name<Scalar>(&s); printf("R still %s\\n", s.c_str());'], expect_after=['R after euler_2d', 'R fails_again 3', 'R still euler_2d']))
             finit = S.api_fn(w, 'masa_init', scalar, 'std::string, std::string')
             S.install_api_models(w)
             BADNAME = tm.sym('BADNAME', 'S')
@@ -186,6 +195,11 @@ def body(chk):
                 if not ok or (exceptions and (p1 != p0 or e1 != e0)):
                     bad.append(pc_term(p['pc']))
                     why = why_ or 'registry changed'
+                elif exceptions:
+                    why2 = after_failure_probes(w, ex, p, scalar, exceptions, finit, handles, objs, lambda ex: [S.new_string(ex, H), S.new_string(ex, BADNAME)], fsel=fsel, directed=directed)
+                    if why2:
+                        bad.append(pc_term(p['pc']))
+                        why = why2
             if n_unknown == 0:
                 bad.append(tm.TRUE)
             chk.paths_clean('init-unknown-name[%s]<%s>' % (bname, scalar), bad, key='init-unknown-name', family='unknown-name',
@@ -199,6 +213,39 @@ def body(chk):
                                                        'int g_=0; try { masa_init<Scalar>("ghost","no such solution"); } catch(int e) {} try { masa_select_mms<Scalar>("ghost"); g_=1; } catch(int e) { g_=0; }',
                                                        'printf("R ghost_not_registered %d\\n", g_==0);'], expect_after=['R after euler_1d', 'R a_intact 1', 'R ghost_not_registered 1']))
     chk.solve_all()
+
+
+def after_failure_probes(w, ex, p, scalar, exceptions, fn, handles, objs, mkargs, fsel=None, directed=None):
+    """second step from the state a caught failure leaves: (1) the same failing call again must fail in the same way,
+    (2) selecting a registered handle must succeed and select its instance.  Returns '' or what went wrong."""
+    st1 = p['st'].clone()
+    n0 = len(st1.events)
+    st1.events = []
+    sel = fsel or fn
+    kw = dict(default=directed) if directed is not None else {}
+    first = set((c.id, b) for c, b in p['pc'])
+    seen = 0
+    for q in ex.explore(st1, lambda ex: ex.call(fn, mkargs(ex)), 128, **kw):
+        if any((c.id, not b) in first for c, b in q['pc']):
+            continue        # contradicts what the first call already established about the same arguments
+        if matched(q, handles) is not None and fsel is None:
+            continue
+        seen += 1
+        ok, why_ = fatal_ok(q, st1, exceptions, state_matters=False)
+        if not ok:
+            return 'the same failing call repeated after the caught failure: %s' % why_
+    if seen == 0:
+        return 'the repeated failing call has no feasible path'
+    for i, h in enumerate(handles):
+        for q in ex.explore(st1, lambda ex: ex.call(sel, [S.new_string(ex, h)]), 16):
+            if any(b and c.op == 'eq' and all(any(x is g for g in handles) for x in c.a) and c.a[0] is not c.a[1] for c, b in q['pc']):
+                continue    # two registered handles compared equal: excluded by the pairwise-distinctness assumption of the state
+            if q['terminal'] is not None or q['error'] is not None:
+                return 'select of the registered handle %s after the caught failure: %r' % (h.p, q['terminal'] or q['error'])
+            p1, e1 = R.snapshot(w, q['st'], scalar)
+            if p1 != objs[i]:
+                return 'select of the registered handle %s after the caught failure selects another instance' % h.p
+    return ''
 
 
 def fatal_replay(chk, scalar, exceptions, lines, why, after=None, expect_after=None):
